@@ -397,18 +397,23 @@ fn handle_parse_node<Data: GarnishData>(
         Definition::List => handle_list(Definition::List, &mut nodes, node_index, &mut stack, parse_node, data, &mut instruction_metadata)?,
         Definition::Or => handle_logical_binary(Instruction::Or, &mut nodes, node_index, &mut stack, &mut root_stack, parse_node, data, &mut instruction_metadata)?,
         Definition::And => handle_logical_binary(Instruction::And, &mut nodes, node_index, &mut stack, &mut root_stack, parse_node, data, &mut instruction_metadata)?,
-        Definition::Group => match parse_node.get_right() {
-            None => {}
-            Some(right) => {
-                let node = match nodes.get_mut(node_index) {
-                    Some(Some(node)) => node,
-                    _ => Err(CompilerError::new_message(format!("No build node at index {}", node_index)))?,
-                };
+        Definition::Group => {
+            let containing = match nodes.get(node_index) {
+                Some(Some(node)) => node.containing_expression_jump.clone(),
+                _ => Err(CompilerError::new_message(format!("No build node at index {}", node_index)))?,
+            };
 
-                nodes[right] = Some(BuildNode::new(right, node.containing_expression_jump.clone()));
+            if let Some(right) = parse_node.get_right() {
+                nodes[right] = Some(BuildNode::new(right, containing.clone()));
                 stack.push(right);
             }
-        },
+
+            // a side-effect block written before the group is evaluated first
+            if let Some(left) = parse_node.get_left() {
+                nodes[left] = Some(BuildNode::new(left, containing));
+                stack.push(left);
+            }
+        }
         Definition::SideEffect => {
             let node = match nodes.get_mut(node_index) {
                 Some(Some(node)) => node,
@@ -464,6 +469,19 @@ fn handle_parse_node<Data: GarnishData>(
                     data.push_instruction(Instruction::EndSideEffect, None)?;
                     instruction_metadata.push(InstructionMetadata::new(Some(node_index)));
                 }
+            }
+        }
+        // a side-effect block written before the expression value is evaluated first
+        Definition::NestedExpression if matches!(parse_node.get_left().map(|left| nodes.get(left)), Some(Some(None))) => {
+            let containing = match nodes.get(node_index) {
+                Some(Some(node)) => node.containing_expression_jump.clone(),
+                _ => Err(CompilerError::new_message(format!("No build node at index {}", node_index)))?,
+            };
+
+            if let Some(left) = parse_node.get_left() {
+                stack.push(node_index);
+                nodes[left] = Some(BuildNode::new(left, containing));
+                stack.push(left);
             }
         }
         Definition::NestedExpression => match parse_node.get_right() {
@@ -943,11 +961,19 @@ fn handle_unary_prefix<Data: GarnishData>(
         BuildNodeState::Uninitialized => {
             node.state = BuildNodeState::Initialized;
 
+            let containing = node.containing_expression_jump.clone();
+
             stack.push(node.parse_node_index);
             let right = parse_node.get_right().ok_or(CompilerError::new_message(format!("No right on {:?} definition", instruction)))?;
             stack.push(right);
 
-            nodes[right] = Some(BuildNode::new(right, node.containing_expression_jump.clone()));
+            nodes[right] = Some(BuildNode::new(right, containing.clone()));
+
+            // a side-effect block written before the operator is evaluated first
+            if let Some(left) = parse_node.get_left() {
+                stack.push(left);
+                nodes[left] = Some(BuildNode::new(left, containing));
+            }
         }
         BuildNodeState::Initialized => {
             data.push_instruction(instruction, None)?;
